@@ -404,9 +404,15 @@ func feed(l4 *server.VerifListener4, l6 *server.VerifListener6, proto int, b []b
 				}
 			}()
 			for _, s := range fr.sent4 {
+				if s.Resp == nil {
+					panic("a nil response reached the send path")
+				}
 				s.Resp.ToBytes()
 			}
 			for _, s := range fr.sent6 {
+				if s.Resp == nil {
+					panic("a nil response reached the send path")
+				}
 				s.Resp.ToBytes()
 			}
 		}()
@@ -618,6 +624,8 @@ func chainSet(level int, r *rand.Rand) [][2][]plugConf {
 		}
 		out = append(out, [2][]plugConf{pick(p4), pick(p6)})
 	}
+	// plugins listed under the protocol they do not support are skipped by LoadPlugins (a warning, not an error)
+	out = append(out, [2][]plugConf{{p4[0], p6[6], p4[1]}, {p6[0], p4[7], p4[2], p6[1]}}, [2][]plugConf{{p6[6]}, {p4[13], p4[3]}})
 	full4 := []plugConf{p4[0], p4[1], p4[2], p4[3], p4[4], p4[5], p4[6], p4[7], p4[12], p4[13]}
 	full6 := []plugConf{p6[0], p6[1], p6[2], p6[5], p6[6]}
 	out = append(out, [2][]plugConf{full4, full6}, [2][]plugConf{{p4[0], p4[13], p4[7]}, {p6[0], p6[6], p6[1]}}, [2][]plugConf{{}, {}})
